@@ -26,6 +26,7 @@ type cinst struct {
 	n       int
 	err     error
 	gen     map[ast.Stmt]bool // statements produced by the rewrite itself
+	waitPkg string            // package of WaitExternal in the retry clause of blocking selects ("" = vsched)
 }
 
 func instrumentCImpl(fset *token.FileSet, f *ast.File, rel string) error {
@@ -546,7 +547,11 @@ func (ci *cinst) selectStmt0(s *ast.SelectStmt) ast.Stmt {
 	ci.n++
 	lbl := fmt.Sprintf("_vl%d", ci.n)
 	ci.gen[s] = true
-	s.Body.List = append(s.Body.List, &ast.CommClause{Body: []ast.Stmt{call("vsched", "WaitExternal"), &ast.BranchStmt{Tok: token.GOTO, Label: ast.NewIdent(lbl)}}})
+	wp := ci.waitPkg
+	if wp == "" {
+		wp = "vsched"
+	}
+	s.Body.List = append(s.Body.List, &ast.CommClause{Body: []ast.Stmt{call(wp, "WaitExternal"), &ast.BranchStmt{Tok: token.GOTO, Label: ast.NewIdent(lbl)}}})
 	ls := &ast.LabeledStmt{Label: ast.NewIdent(lbl), Stmt: s}
 	ci.gen[ls] = true
 	return ls
